@@ -30,8 +30,11 @@
                     object;
     * `copyFrame`   fixes/C15-dataarray-gdf-copy.patch — `UxDataArray.to_geodataframe` attaches its column to a
                     shallow copy of the (cached) frame.
-  `Repairs.all` is the code with the patches (what the driver runs and the property theorems are about),
-  `Repairs.asIs` the code without them (the proved counterexamples `asis_*` in Props/C15.lean).
+  `Repairs.all` is the code with all three patches, `Repairs.asIs` the code without them, `Repairs.current` the code
+  as it stands in /repo: `ignoreProj` and `sideRestore` are committed (6127899e, a88e1270); `copyFrame` was NOT
+  applied — upstream tests specify that repeated conversions return the identical cached frame — so the driver runs
+  `Repairs.current` and the returned-frame finding stays listed.  Every property theorem states the switches it needs
+  as hypotheses; the proved counterexamples `asis_*` in Props/C15.lean are about the code without the respective switch.
   Already committed repairs (NaN mask over both axes, projection stored in the line cache, engine kept when NaN
   polygons are filtered) are part of both.  fixes/C15-geopandas-nan-shells.patch and
   fixes/C15-polycollection-split-crossing-only.patch repair behaviour of third-party calls (shapely on NaN rings,
@@ -127,6 +130,10 @@ deriving DecidableEq, Repr
 
 def Repairs.all : Repairs := ⟨true, true, true⟩
 def Repairs.asIs : Repairs := ⟨false, false, false⟩
+/-- the code as it stands in /repo: `ignoreProj` and `sideRestore` are committed; the frame copy is NOT
+    (upstream tests specify that repeated conversions return the identical cached frame), so the
+    returned-frame finding remains — this is what the driver runs -/
+def Repairs.current : Repairs := ⟨true, true, false⟩
 
 /-- `non_nan_polygon_indices` of `'exclude'`: `None` without projection, otherwise positions IN THE ARRAY
     WITH THE CROSSING FACES DELETED of the shells without NaN -/
